@@ -160,6 +160,22 @@ Proof.
 Qed.
 Print Assumptions C09_concurrent_render_bytes.
 
+(* The granularity of the reads does not matter.  [render_prog] reads each
+   shared object once; the real renderer reads registry, maps and bundle
+   piecemeal.  ANY thread programs that, alone on the initial store, perform no
+   write and return the renders' results (however many reads they make, wherever
+   they place them) are race-free under every schedule and return those results. *)
+Theorem C09_any_read_placement_partial :
+  forall (J : Type) (ps : list (rprog J)) (rqs : list creq) (s0 : store rloc sval) (sched : list nat) c tr,
+    Forall2 (implements_render J s0) ps rqs ->
+    run rloc_eqb sched (Build_config ps s0) = (c, tr) ->
+    ~ has_race tr
+    /\ (forall l, shared c l = s0 l)
+    /\ forall i rq r, nth_error rqs i = Some rq -> nth_error (threads c) i = Some (Done r) ->
+         r = RRender J (render_alone rq s0).
+Proof. exact any_read_placement. Qed.
+Print Assumptions C09_any_read_placement_partial.
+
 (* ---------------- what the theory rules out ---------------- *)
 
 (* the pinned evalPrint (reads the node's directive list, writes the appended list back): two such renders race *)
@@ -200,6 +216,17 @@ Example C09_nonvacuous :
   /\ proj 2 tr = [Rd LRegistry; Rd LConfig; Rd LMessages; Rd LHeap]
   /\ match shared c (LOwn 3) with SRegistry _ => True | _ => False end.
 Proof. vm_compute. repeat split; reflexivity. Qed.
+
+(* a render that re-reads the caller's maps and the registry between its steps implements the same render *)
+Definition ex_piecemeal : rprog nat :=
+  Read LHeap (fun _ => Read LRegistry (fun vr => Read LHeap (fun _ => Read LConfig (fun vc => Read LRegistry (fun _ =>
+  Read LMessages (fun vm => Read LHeap (fun vh => Done (RRender nat (render_on ex_rq vr vc vm vh))))))))).
+Example C09_piecemeal_nonvacuous :
+  Forall2 (implements_render nat ex_store) [ex_piecemeal; render_prog nat ex_rq] [ex_rq; ex_rq].
+Proof.
+  constructor; [|constructor; [apply render_prog_implements|constructor]].
+  split; [unfold write_free; vm_compute; repeat constructor | vm_compute; reflexivity].
+Qed.
 
 (* the hypotheses of the general theorems are satisfiable with private locations in play *)
 Example C09_discipline_nonvacuous :
